@@ -193,6 +193,12 @@ class Model:
             c['_source'] = src
             exec(compile(src, '<model:%s>' % c['name'], 'exec'), ns)
             self.classes[c['name']] = ns[c['name']]
+            if c.get('py_name'):
+                # the class as Python names it (two classes from different
+                # modules may be called the same); the spec name stays the
+                # handle inside the harness
+                ns[c['name']].__name__ = c['py_name']
+                ns[c['name']].__qualname__ = c['py_name']
 
     def _default_value(self, c, p):
         d = p['default']
